@@ -135,3 +135,26 @@ void h_K_apply_eff_stmt(void) { g_ops = 0; K_apply_eff_stmt(nondet_bool(), nonde
 #include "K_apply_geo_stmt.c"
 void h_K_apply_geo_stmt(void) { g_ops = 0; K_apply_geo_stmt(nondet_bool(), nondet_int(), nondet_int(), nondet_int(), nondet_int(), nondet_int()); }
 #endif
+
+/* ---- iterate_efficiencies ---- */
+#include "K_iter_eff.c"
+void h_K_iter_eff(void)
+{
+  struct FAN* s;
+  g_ra = nondet_int(); g_a = nondet_int(); g_rb = nondet_int(); g_b = nondet_int(); g_data_zero = nondet_bool(); g_acc = 0; g_set = 0; g_set_kind = nondet_int();
+  K_iter_eff(s);
+}
+
+/* ---- FanProjData range accessors ---- */
+#include "K_fan_get_max_rb.c"
+#include "K_fan_get_min_rb_acc.c"
+#include "K_fan_get_min_b.c"
+#include "K_fan_get_max_b.c"
+#include "K_fan_get_max_a.c"
+#include "K_fan_get_max_ra.c"
+void h_K_fan_get_max_rb(void) { struct FAN* s; K_fan_get_max_rb(s, nondet_int()); }
+void h_K_fan_get_min_rb_acc(void) { struct FAN* s; K_fan_get_min_rb_acc(s, nondet_int()); }
+void h_K_fan_get_min_b(void) { struct FAN* s; K_fan_get_min_b(s, nondet_int()); }
+void h_K_fan_get_max_b(void) { struct FAN* s; K_fan_get_max_b(s, nondet_int()); }
+void h_K_fan_get_max_a(void) { struct FAN* s; K_fan_get_max_a(s); }
+void h_K_fan_get_max_ra(void) { struct FAN* s; K_fan_get_max_ra(s); }
